@@ -209,6 +209,7 @@ def gen_roundtrip_case(rng):
             while len(topics) < n:
                 a = valid_name(rng)
                 if a not in topics: topics.append(a)
+            if n >= 2 and 'main' not in topics and rng.random() < 0.4: topics[-1] = 'main'       # lists that end in the default topic (elided spelling below)
         return {'fn': 'rt_topics', 'text': text, 'topics': topics, 'mapping': mapping, 'max': rng.choice([None, n, n + 1])}
     text = rng.choice(['file://a.mp4', 'rtsp://u:p!w@h/s', 'rtsp://u:p!!@h', 'rtsp://u:pw!@h:554/s', 'a', 'rtsp://user:a!b=c@h/s', 'x!y z', ''])
     opts = {}
@@ -740,7 +741,17 @@ def run(ctx):
             res.note(c, bool(c.get('topics') or (c.get('opts') or {}).get('__dict__')))
             if J(o) != J(exp):
                 res.violations.append(Violation('roundtrip:' + c['fn'][3:], f'parse(render(x)) != x: rendered {rr["r"]!r} parsed to {o!r}', c))
-            else: res.traces_validated += 1
+            else:
+                res.traces_validated += 1
+                # the documented short spelling of the default topic (an EMPTY topic means 'main': "addr;" = only main): a plain topic list that ends in main,
+                # rendered with that last topic elided, parses to the same list
+                tl = c.get('topics')
+                if c['fn'] == 'rt_topics' and c['mapping'] is False and tl and len(tl) >= 2 and tl[-1] == 'main' and isinstance(rr['r'], str) and rr['r'].endswith('main'):
+                    short = rr['r'][:-4] + rng.choice(['', ' ', '\t'])
+                    o2 = impl_roundtrip(c, short)
+                    count('roundtrip:elided-default')
+                    if J(o2) != J(exp):
+                        res.violations.append(Violation('roundtrip:topics-elided-default', f'{short!r} (last topic elided = the default topic) parsed to {o2!r}, {rr["r"]!r} to {o!r}', dict(c, elided=short)))
 
     # (b2) the examples and equivalences written in the docstrings (read from the current source)
     if not ctx.replay or ctx.replay.get('key', '').startswith('docstring:'):
